@@ -14,6 +14,7 @@ import (
 	"net/textproto"
 	"net/http"
 	"net/http/httptest"
+	"os"
 	"sort"
 	"strings"
 	"sync"
@@ -61,6 +62,8 @@ type c04In struct {
 	FileSkip int    `json:"file_skip,omitempty"`    // the upload is a seekable reader handed over after this many bytes were already read
 	Wire     string `json:"wire,omitempty"`     // "" = request serialised and re-parsed in process; "tcp" = a real loopback HTTP server and the default transport
 	RespPad  int    `json:"resp_pad,omitempty"` // the response body is followed by this many padding bytes (large bodies are streamed by a real transport)
+	RespCT   string `json:"resp_ct,omitempty"`  // the handler's responder sets this Content-Type itself (a type the operation does not list) and writes the body raw
+	BSeq     []c04BStep `json:"bseq,omitempty"` // kind bseq: calls on ONE server of an operation with an optional body and one with an optional file, sent or left out
 	AuthQ    bool   `json:"auth_q,omitempty"`   // the credential is an API key in the QUERY, under the name of the form field f1 (the form field must still arrive as set)
 	Sign     bool   `json:"sign,omitempty"`     // the auth writer is a request-signing one: it reads the body through GetBody() before setting its header
 	Stream   int    `json:"stream,omitempty"`   // body kind json only: 0 = a value the producer serialises, 1 = an io.Reader over the serialised bytes, 2 = an io.ReadCloser
@@ -88,6 +91,14 @@ type c04Step struct {
 	Op int `json:"op"`
 	P1 Bs  `json:"p1"`
 	P2 Bs  `json:"p2"`
+}
+
+// c04BStep is one call of a bseq history: Op 0 = POST <prefix>/b with an optional json body, Op 1 = POST <prefix>/u with a
+// form field and an optional file. Send says whether the optional part is supplied in this call.
+type c04BStep struct {
+	Op   int  `json:"op"`
+	Send bool `json:"send"`
+	Val  Bs   `json:"val"`
 }
 
 type c04StepObs struct {
@@ -193,6 +204,20 @@ func (c04) Gen(r *rand.Rand, tier string, i int) any {
 				BigFile: []int{40000, 300000, 1 << 20, 3 << 20}[r.Intn(4)], FileSeed: r.Int63(), RespBody: "ok", RespHdr: "h",
 				Auth: r.Intn(4) == 0, Sign: true})
 		}
+		if r.Intn(5) == 0 { // one upload beyond the 32 MiB the server's form parser keeps in memory
+			in.Par[0].BigFile = []int{32<<20 + 1, 33<<20 + 17, 40 << 20}[r.Intn(3)]
+		}
+		return in
+	}
+	if i%20 == 13 { // optional parts supplied and left out over a history on one server
+		in := c04In{Kind: "bseq"}
+		for j := 2 + r.Intn(5); j > 0; j-- {
+			v := c04Val(r, false)
+			if v == "" {
+				v = "v"
+			}
+			in.BSeq = append(in.BSeq, c04BStep{Op: r.Intn(2), Send: r.Intn(2) == 0, Val: Bs(strings.ToValidUTF8(string(v), "?"))})
+		}
 		return in
 	}
 	if i%10 == 8 { // one header parameter; the line on the wire is compared with the model's writer and reader
@@ -263,6 +288,9 @@ func (c04) Gen(r *rand.Rand, tier string, i int) any {
 	in.ConsAlt = r.Intn(3) == 0
 	in.Sign = in.Auth && r.Intn(2) == 0
 	in.AuthQ = in.Auth && r.Intn(3) == 0
+	if r.Intn(5) == 0 {
+		in.RespCT = []string{"text/html; charset=utf-8", "text/html", "text/html;x=1"}[r.Intn(3)]
+	}
 	if in.AuthQ {
 		in.Sign = false
 	}
@@ -720,9 +748,134 @@ func c04RunSeq(in c04In, obs *c04Obs) {
 	}
 }
 
+// c04RunBSeq: optional parts over a history. One server; each call supplies or leaves out the optional body / file; a part
+// left out must not arrive (in particular not the one an earlier call supplied).
+func c04RunBSeq(in c04In, obs *c04Obs) {
+	doc := `{"swagger":"2.0","info":{"title":"t","version":"1"},"produces":["application/json"],"paths":{` +
+		`"/b":{"post":{"consumes":["application/json"],"parameters":[{"name":"body","in":"body","schema":{"type":"object"}}],"responses":{"200":{"description":"ok","schema":{"type":"string"}}}}},` +
+		`"/u":{"post":{"consumes":["multipart/form-data"],"parameters":[{"name":"f1","in":"formData","type":"string"},{"name":"up","in":"formData","type":"file"}],"responses":{"200":{"description":"ok","schema":{"type":"string"}}}}}}}`
+	spec, err := loads.Analyzed(json.RawMessage(doc), "")
+	if err != nil {
+		panic("spec: " + err.Error())
+	}
+	api := untyped.NewAPI(spec)
+	api.RegisterConsumer("multipart/form-data", runtime.DiscardConsumer)
+	var cur *c04Obs
+	mk := func(op int) runtime.OperationHandler {
+		return runtime.OperationHandlerFunc(func(data interface{}) (interface{}, error) {
+			cur.Ran = true
+			cur.Recv = map[string][]Bs{}
+			for k, v := range data.(map[string]interface{}) {
+				switch x := v.(type) {
+				case runtime.File:
+					if x.Data != nil {
+						b, _ := io.ReadAll(x.Data)
+						cur.Recv["up"] = []Bs{c04Digest(b)}
+					}
+				case *runtime.File:
+					if x != nil && x.Data != nil {
+						b, _ := io.ReadAll(x.Data)
+						cur.Recv["up"] = []Bs{c04Digest(b)}
+					}
+				case map[string]interface{}:
+					if sv, ok := x["v"].(string); ok && k == "body" {
+						cur.Recv["body"] = []Bs{Bs(sv)}
+					}
+				default:
+					if s := c04Strs(v); !c04AllEmpty(s) {
+						cur.Recv[k] = s
+					}
+				}
+			}
+			return "ok", nil
+		})
+	}
+	api.RegisterOperation("post", "/b", mk(0))
+	api.RegisterOperation("post", "/u", mk(1))
+	h := middleware.Serve(spec, api) // ONE server for the whole history
+	var tgt Bs
+	for _, st := range in.BSeq {
+		var so c04Obs
+		cur = &so
+		st := st
+		rt := client.New("example.test", "", []string{"http"})
+		rt.Transport = c04Transport{h: h, target: &tgt}
+		op := &runtime.ClientOperation{ID: "op", Method: "POST", PathPattern: "/b", Schemes: []string{"http"},
+			ProducesMediaTypes: []string{"application/json"}, ConsumesMediaTypes: []string{"application/json"},
+			Reader: runtime.ClientResponseReaderFunc(func(resp runtime.ClientResponse, _ runtime.Consumer) (interface{}, error) {
+				so.SeenCode = resp.Code()
+				return nil, nil
+			})}
+		if st.Op == 1 {
+			op.PathPattern, op.ConsumesMediaTypes = "/u", []string{"multipart/form-data"}
+		}
+		op.Params = runtime.ClientRequestWriterFunc(func(req runtime.ClientRequest, _ strfmt.Registry) error {
+			if st.Op == 0 {
+				if st.Send {
+					return req.SetBodyParam(map[string]string{"v": string(st.Val)})
+				}
+				return nil
+			}
+			_ = req.SetFormParam("f1", "x")
+			if st.Send {
+				return req.SetFileParam("up", runtime.NamedReader("f.bin", bytes.NewReader([]byte(st.Val))))
+			}
+			return nil
+		})
+		if _, err := rt.Submit(op); err != nil {
+			so.SubmitErr = err.Error()
+		}
+		obs.ParObs = append(obs.ParObs, so)
+	}
+}
+
+// c04BSupplied: what a bseq call supplies.
+func c04BSupplied(st c04BStep) map[string][]Bs {
+	m := map[string][]Bs{}
+	if st.Op == 1 {
+		m["f1"] = []Bs{"x"}
+	}
+	if st.Send {
+		if st.Op == 0 {
+			m["body"] = []Bs{st.Val}
+		} else {
+			m["up"] = []Bs{c04Digest([]byte(st.Val))}
+		}
+	}
+	return m
+}
+
+// Forms beyond the 32 MiB the server's parser keeps in memory are spilled to temporary files, which nobody removes: the
+// harness points TMPDIR at a directory of its own and empties it after every parallel case.
+var c04TmpOnce sync.Once
+var c04TmpDir string
+
+func c04OwnTmp() {
+	c04TmpOnce.Do(func() {
+		d := os.TempDir() + "/verif-c04-spill"
+		if err := os.MkdirAll(d, 0o700); err == nil {
+			c04TmpDir = d
+			_ = os.Setenv("TMPDIR", d)
+		}
+	})
+}
+
+func c04EmptyTmp() {
+	if c04TmpDir == "" {
+		return
+	}
+	if es, err := os.ReadDir(c04TmpDir); err == nil {
+		for _, e := range es {
+			_ = os.RemoveAll(c04TmpDir + "/" + e.Name())
+		}
+	}
+}
+
 func (c04) Run(inAny any) any {
 	in := inAny.(c04In)
 	if len(in.Par) > 0 {
+		c04OwnTmp()
+		defer c04EmptyTmp()
 		var obs c04Obs
 		obs.ParObs = make([]c04Obs, len(in.Par))
 		var wg sync.WaitGroup
@@ -773,6 +926,10 @@ func c04RunOne(in c04In) c04Obs {
 	}
 	if in.Kind == "mpread" {
 		obs.Panicked, obs.Panic = recoverTo(func() { c04RunMpRead(in, &obs) })
+		return obs
+	}
+	if in.Kind == "bseq" {
+		obs.Panicked, obs.Panic = recoverTo(func() { c04RunBSeq(in, &obs) })
 		return obs
 	}
 	obs.Panicked, obs.Panic = recoverTo(func() {
@@ -838,6 +995,12 @@ func c04RunOne(in c04In) c04Obs {
 			}
 			return middleware.ResponderFunc(func(rw http.ResponseWriter, p runtime.Producer) {
 				rw.Header().Set("X-Resp", string(in.RespHdr))
+				if in.RespCT != "" { // the handler answers with a media type of its own
+					rw.Header().Set("Content-Type", in.RespCT)
+					rw.WriteHeader(201)
+					_, _ = io.WriteString(rw, string(in.RespBody)+strings.Repeat("p", in.RespPad))
+					return
+				}
 				rw.WriteHeader(201)
 				_ = p.Produce(rw, string(in.RespBody)+strings.Repeat("p", in.RespPad))
 			}), nil
@@ -909,6 +1072,9 @@ func c04RunOne(in c04In) c04Obs {
 			Reader: runtime.ClientResponseReaderFunc(func(resp runtime.ClientResponse, cons runtime.Consumer) (interface{}, error) {
 				obs.SeenCode = resp.Code()
 				obs.SeenHdr = Bs(resp.GetHeader("X-Resp"))
+				if in.RespCT != "" {
+					obs.SeenHdr += Bs("|" + resp.GetHeader("Content-Type"))
+				}
 				if resp.Code() == 201 {
 					var s string
 					if err := cons.Consume(resp.Body(), &s); err != nil {
@@ -1078,6 +1244,17 @@ func (c04) Coq(inAny any, obsAny any) string {
 		return fmt.Sprintf("CMpRead %s %s %s %s %s %s", coqBool(obs.Panicked), coqBytes(in.MpBoundary), coqBytes(string(obs.MpDoc)),
 			coqBool(in.MpMut != "" && in.MpMut != "slow"), sup, coqOpt(obs.MpReadOK, coqBytesList(bsList(obs.MpRead))))
 	}
+	if in.Kind == "bseq" {
+		steps := make([]string, 0, len(in.BSeq))
+		for i, st := range in.BSeq {
+			var so c04Obs
+			if i < len(obs.ParObs) {
+				so = obs.ParObs[i]
+			}
+			steps = append(steps, fmt.Sprintf("(%s, %s, %s, %s)", coqBool(so.Panicked || so.SubmitErr != ""), coqBool(so.Ran && so.SeenCode == 200), c04Assoc(c04BSupplied(st)), c04Assoc(so.Recv)))
+		}
+		return fmt.Sprintf("CRoundSeq %s [%s]", coqBool(obs.Panicked), strings.Join(steps, "; "))
+	}
 	if len(in.Par) > 0 {
 		steps := make([]string, 0, len(in.Par))
 		for i, sub := range in.Par {
@@ -1094,7 +1271,7 @@ func (c04) Coq(inAny any, obsAny any) string {
 		coqBool(obs.Panicked), coqBool(obs.SubmitErr != ""), coqBool(obs.Ran),
 		c04Assoc(c04Supplied(in)), c04Assoc(obs.Recv),
 		coqBool(c04AuthOK(in, obs)),
-		coqPair(coqBytes(string(in.RespHdr)), coqBytes(string(in.RespBody))),
+		coqPair(coqBytes(c04WantHdr(in)), coqBytes(string(in.RespBody))),
 		coqNat(obs.SeenCode), coqPair(coqBytes(string(obs.SeenHdr)), coqBytes(string(obs.SeenBody))),
 		coqBool(true))
 }
@@ -1119,6 +1296,13 @@ func c04HdrLines(head Bs, name string) (line, next Bs) {
 		}
 	}
 	return "", ""
+}
+
+func c04WantHdr(in c04In) string {
+	if in.RespCT != "" {
+		return string(in.RespHdr) + "|" + in.RespCT
+	}
+	return string(in.RespHdr)
 }
 
 // c04AuthOK: the server saw the credential the auth writer set; a signing writer was called and, where the body is a
@@ -1153,6 +1337,9 @@ func (c04) Category(inAny any, obsAny any) (string, bool) {
 	in := inAny.(c04In)
 	if len(in.Par) > 0 {
 		return fmt.Sprintf("parallel/%d-uploads-in-flight", len(in.Par)), true
+	}
+	if in.Kind == "bseq" {
+		return fmt.Sprintf("history/%d-calls-optional-body-or-file", len(in.BSeq)), true
 	}
 	if in.Kind == "hdr" {
 		cls := "value-survives-as-is"
